@@ -16,3 +16,15 @@ pub fn vx_max(a: usize, b: usize) -> (r: usize)
 {
     if a >= b { a } else { b }
 }
+
+pub fn vx_min_i64(a: i64, b: i64) -> (r: i64)
+    ensures r == (if a <= b { a } else { b }),
+{
+    if a <= b { a } else { b }
+}
+
+pub fn vx_max_i64(a: i64, b: i64) -> (r: i64)
+    ensures r == (if a >= b { a } else { b }),
+{
+    if a >= b { a } else { b }
+}
